@@ -65,6 +65,8 @@ def cases(tier, seed):
     yield "big", dict(kind="blank")
     yield "big", dict(kind="nan_image")
     yield "big", dict(kind="grid7")
+    yield "big", dict(kind="pole_N")        # images whose reference point is a celestial pole
+    yield "big", dict(kind="pole_S")
     for proj in ("SIN", "ZEA", "TAN"):      # wide fields: sources up to 16 deg from the reference pixel, no psf map
         yield "big", dict(kind="wide_" + proj)
     if tier != "quick":
@@ -385,6 +387,19 @@ def ev_big(case, ctx):
                 ctx.violation("priorized fit of an empty catalogue returned sources", "empty_catalogue|" + sig)
         except Exception as e:
             ctx.violation("priorized fit of an empty catalogue raised %r" % (e,), "raise|%s,empty" % sig)
+        return
+    if kind.startswith("pole_"):
+        shape = (128, 128)
+        hdr = scenes.scene_header(shape, proj="SIN", crval=(40.0, 90.0 if kind == "pole_N" else -90.0))
+        hdr["LONPOLE"] = 180.0
+        hdr, img, srcs = scenes.grid_scene(5, shape, hdr=hdr)
+        scenes.write_image(f, hdr, img)
+        img32 = np.asarray(img, dtype=np.float32).astype(np.float64)
+        res = run_modes(f, hdr, img32, ctx, sig, modes=["blind", "island", "p1r", "p3r", "p2n"])
+        ctx.nontrivial(sig)
+        b = res.get("blind") or []
+        if len(b) != 25:
+            ctx.violation("%d components for 25 isolated sources (%s)" % (len(b), sig), "big_count|" + sig)
         return
     if kind.startswith("wide_"):
         from mc.oracles import wcs_zenithal as wz
